@@ -80,9 +80,19 @@ type Opts struct {
 	PreStart func(*World) error
 }
 
+// AliasName returns the host-table alias of service s's listener. Some are written
+// with capital letters: an alias is used in Route entries exactly as configured.
+func AliasName(s int) string {
+	if s%3 == 1 {
+		return fmt.Sprintf("Alias%d.Verif.TEST", s)
+	}
+	return fmt.Sprintf("alias%d.verif.test", s)
+}
+
 // ServiceNames returns the `name:` value of service s.
 func ServiceNames(s int) string {
-	return fmt.Sprintf("svc%d.verif.test,bob@users%d.verif.test,^rx%d-[a-z]+@regex\\.verif\\.test$,urn:service:sos.s%d,^tel:\\+99%d[0-9]*$", s, s, s, s, s)
+	// the last two names are good literals but not valid regular expressions
+	return fmt.Sprintf("svc%d.verif.test,bob@users%d.verif.test,^rx%d-[a-z]+@regex\\.verif\\.test$,urn:service:sos.s%d,^tel:\\+99%d[0-9]*$,*69@pbx%d.verif.test,+1800555%d@ims.verif.test", s, s, s, s, s, s, s)
 }
 
 // BuildConfig renders the standard configuration for plan p.
@@ -96,7 +106,7 @@ func BuildConfig(p Plan, o Opts) *Config {
 	}
 	cfg.Hosts = append(cfg.Hosts, HostIP{"sentinel.verif.test", p.Sentinel()})
 	for s := 0; s < o.Services; s++ {
-		cfg.Hosts = append(cfg.Hosts, HostIP{fmt.Sprintf("alias%d.verif.test", s), p.Listener(s, 0)})
+		cfg.Hosts = append(cfg.Hosts, HostIP{AliasName(s), p.Listener(s, 0)})
 		cfg.Hosts = append(cfg.Hosts, HostIP{fmt.Sprintf("other%d.verif.test", s), p.Listener((s+1)%o.Services, 0)})
 	}
 	for s := 0; s < o.Services; s++ {
